@@ -182,7 +182,7 @@ type RuleElement struct {
 
 type Predicate struct {
 	Name *string `@Ident`
-	IDs  []*Term `"(" (@@ ("," @@)*)* ")"`
+	IDs  []*Term `"(" (@@ ("," @@)*)? ")"`
 }
 
 type Check struct {
